@@ -1,6 +1,6 @@
 (* Model of external authentication (C18), following the code after the fixes
-   fixes/C18-oauth-authurl-reset.patch, C18-auth-proxy-cleanup-frontend.patch and
-   C18-placement-fail-closed.patch:
+   fixes/C18-oauth-authurl-reset.patch, C18-auth-proxy-cleanup-frontend.patch,
+   C18-placement-fail-closed.patch and C18-oauth-empty-prefix.patch:
      pkg/haproxy/types/frontend.go   AcquireAuthBackendName, RemoveAuthBackendExcept
      pkg/converters/ingress/annotations/backend.go
                                      setAuthExternal, buildBackendAuthExternal,
@@ -148,6 +148,8 @@ Inductive placement := PlBackend | PlFrontend | PlOther.
 
 Record odecl := {
   o_impl : bool;             (* oauth2_proxy / oauth2-proxy *)
+  o_prefix_ok : bool;        (* oauth-uri-prefix, trailing slashes trimmed, is not empty
+                                (fixes/C18-oauth-empty-prefix.patch) *)
   o_backend : option N;      (* findBackend(namespace, uriPrefix) *)
   o_prefix : N;              (* id of AllowedPath = uriPrefix + "/" *)
   o_tag : N
@@ -199,6 +201,7 @@ Definition oauth_step (lua_ok : bool) (d : pdecl) (a : auth) : auth :=
       else match d_url d with
            | Some _ => a          (* auth-url has precedence, its verdict is kept *)
            | None =>
+               if negb (o_prefix_ok o) then set_deny a else
                match o_backend o with
                | None => set_deny a
                | Some b => {| a_deny := false; a_name := Some (NBack b);
